@@ -96,6 +96,13 @@ def auth_values(user, plain, stored):
         ('name:space-before-colon', ['Authorization : Basic ' + good]),
         ('name:proxy', ['Proxy-Authorization: Basic ' + good]),
         ('name:prefixed', ['X: Authorization: Basic ' + good]),
+        ('decoy:x-forwarded-authorization', ['X-Forwarded-Authorization: Basic ' + good]),
+        ('decoy:www-authorization', ['WWW-Authorization: Basic ' + good]),
+        ('decoy:note', ['X-Note: Authorization: Basic ' + good]),
+        ('decoy:note-no-blank', ['X-Note:Authorization: Basic ' + good]),
+        ('decoy:after-wrong-real', ['Authorization: Basic ' + b64(user + ':nope'), 'Proxy-Authorization: Basic ' + good]),
+        ('decoy:before-absent-real', ['Cookie: a=b; Authorization: Basic ' + good, 'Host: x']),
+        ('decoy:unicode-name', [u'X\xe9-Authorization: Basic ' + good]),
         ('name:continuation-of-previous', ['X-Foo: bar', '\tAuthorization: Basic ' + good]),
         ('name:leading-space-first-header', [' Authorization: Basic ' + good]),
         ('cookie:lf-inside', ['Authorization: Basic ' + good + '\nX']),
@@ -294,16 +301,28 @@ def gen_requests(chk, user, plain, stored, full):
 
 # ------------------------------------------------------------ observation
 
+AUTH_NAME = re.compile('authorization', re.IGNORECASE)
+
+
 def credential_occurrences(raw):
-    """For every occurrence of the word basic (any case) followed by blank in
-    a CRLF-terminated line of the raw bytes: the (user, password) pairs some
-    reading of the rest of the line could yield, decoded with the lenient
-    base64 decoder the server uses.  Used by the monitor, deliberately generous."""
+    """The judge's reading of the property: credentials count only when they
+    stand in a header whose NAME is exactly Authorization - a CRLF-terminated
+    line that begins with the name (any case; the two Unicode spellings the
+    regex engine folds to `i` included) immediately followed by a colon.  A
+    header that merely ENDS in `Authorization: Basic ...` (Proxy-Authorization,
+    X-Forwarded-Authorization, `X-Note: Authorization: ...`), a continuation
+    line or the request line does not count.  Beyond the name the reading is
+    deliberately generous: every occurrence of the word basic followed by a
+    blank, the rest of the line decoded with the lenient base64 decoder.
+    Returns one list of (user, password) candidates per occurrence."""
     occ = []
     text = raw.decode('utf-8', 'replace')
     for line in text.split('\r\n'):
-        for m in re.finditer(r'(?i)basic[ \t]', line):
-            tok = line[m.end():]
+        name, sep, value = line.partition(':')
+        if not sep or not AUTH_NAME.fullmatch(name):
+            continue
+        for m in re.finditer(r'(?i)basic[ \t]', value):
+            tok = value[m.end():]
             pairs = []
             for cand in (tok, tok.strip(), tok.split(' ')[0], tok.split('\n')[0]):
                 try:
@@ -717,6 +736,72 @@ def _run(chk, wd, proved, only=None):
                             chk.violation({'kind': 'PROPERTY VIOLATED: a server section refuses its own configured credentials',
                                            'scenario': sname, 'server': fam, 'section_credentials': [cfg['username'], cfg['password']],
                                            'other_section': list(logins[other]), 'raw': list(raw), 'status': o['status']})
+        finally:
+            with contextlib.redirect_stdout(sink), contextlib.redirect_stderr(sink):
+                tb.close()
+    # --- every SHAPE of server sections through the real config parser; each server is judged
+    #     against ITS OWN section (None = the section configures no authentication)
+    A = ('opsuser', 'ops-secret', 'ops-secret')
+    B = ('viewer', sha('view-pw'), 'view-pw')
+    E1 = ('alice', '', '')                      # password configured but empty
+    E2 = ('bob', '', '')                        # password=%(ENV_X)s with X set to the empty string
+
+    def sect(c, pwtext=None):
+        if c is None:
+            return {}
+        return {'username': c[0].replace('%', '%%'), 'password': (pwtext if pwtext is not None else c[1].replace('%', '%%'))}
+
+    shapes = [
+        ('named-inet-only', [('inet_http_server:ops', A)], {}),
+        ('unnamed-open+named-protected', [('inet_http_server', None), ('inet_http_server:ops', A)], {}),
+        ('unnamed-protected+named-open', [('inet_http_server', A), ('inet_http_server:pub', None)], {}),
+        ('unnamed+named-different', [('inet_http_server', A), ('inet_http_server:view', B)], {}),
+        ('two-named', [('inet_http_server:ops', A), ('inet_http_server:view', B)], {}),
+        ('unix-named+unix-unnamed', [('unix_http_server:ops', B), ('unix_http_server', A)], {}),
+        ('empty-password', [('unix_http_server', E1), ('inet_http_server:env', E2)], {'inet_http_server:env': '%(ENV_X)s'}),
+    ]
+    for si, (sname, secs, pwtexts) in enumerate(shapes):
+        sub = os.path.join(wd, 'cfg-shape%d' % si)
+        os.makedirs(sub)
+        intended = dict((name, c) for name, c in secs)
+        try:
+            with contextlib.redirect_stdout(sink), contextlib.redirect_stderr(sink):
+                tb = S.Testbed(sub, None, None, tag='h%d' % si,
+                               sections=[(name, sect(c, pwtexts.get(name))) for name, c in secs],
+                               expansions={'ENV_X': ''})
+        except Exception as e:
+            chk.violation({'kind': 'server sections could not be parsed / servers not built', 'shape': sname,
+                           'error': repr(e)}, nofail=True)
+            continue
+        try:
+            if len(tb.configs) != len(secs):
+                chk.violation({'kind': 'config parser produced %d servers for %d sections' % (len(tb.configs), len(secs)),
+                               'shape': sname, 'config_text': tb.config_text}, nofail=True)
+            everyone = [c for _, c in secs if c is not None]
+            for which, cfg in enumerate(tb.configs):
+                fam = 'unix' if tb.addrs[which][0] == 1 else 'inet'
+                mine = intended.get(cfg['section'])
+                extra = {'shape': sname, 'config_text': tb.config_text, 'server_section': cfg['section'],
+                         'section_credentials': None if mine is None else list(mine[:2])}
+                if mine is None:
+                    chk.dist('kind:section-shape:open-by-configuration')
+                    continue
+                logins = [('absent', None)] + [('own' if c is mine else 'foreign', (c[0], c[2])) for c in everyone]
+                logins += [('own-user-empty-password', (mine[0], '')), ('own-user-wrong-password', (mine[0], mine[2] + 'x')),
+                           ('empty-both', ('', ''))]
+                for path, method, body in (('/RPC2', 'POST', rpc_body('rec.kill', 'g:p')), ('/mainlogtail', 'GET', b''),
+                                           ('/stylesheets/supervisor.css', 'GET', b'')):
+                    for who, login in logins:
+                        hl = [] if login is None else ['Authorization: Basic ' + b64(login[0] + ':' + login[1])]
+                        raw = build_request(method, path, ' HTTP/1.1', hl, body)
+                        o = observe(tb, which, raw, sink)
+                        n_exchanges += 1
+                        chk.dist('kind:section-shape:' + who)
+                        tags = ('section-shape', path, sname + ':' + who, method, 'HTTP/1.1')
+                        _judge(chk, mine[0], mine[1], tags, raw, o, fam, extra=extra)
+                        if login is not None and acceptable(mine[0], mine[1], login[0], login[1]) and not o['inner']:
+                            chk.violation({'kind': 'PROPERTY VIOLATED: a server section refuses its own configured credentials',
+                                           'sections': extra, 'server': fam, 'raw': list(raw), 'status': o['status']})
         finally:
             with contextlib.redirect_stdout(sink), contextlib.redirect_stderr(sink):
                 tb.close()
